@@ -1,0 +1,15 @@
+//go:build verif
+
+package kmipclient
+
+// VerifYield, when set (before any connection is created), is called at the instrumented
+// points of the connection state machines with the point's name and the object concerned.
+// It exists only with the `verif` build tag and lets an external verification harness
+// observe, delay or order the goroutines at exactly these points. It adds no behaviour.
+var VerifYield func(point string, obj any)
+
+func verifYield(point string, obj any) {
+	if f := VerifYield; f != nil {
+		f(point, obj)
+	}
+}
